@@ -238,6 +238,7 @@ class Exec:
         self.assumed_calls: set[str] = set()
         self.n_feas = 0
         self.spec_mode = 0
+        self.call_counts = {}
         self.uf_cache: dict = {}
 
     # ------------------------------------------------------------------ solver helpers
@@ -960,7 +961,8 @@ class Exec:
             return
         mod, node = get_def(f.module, f.qualname)
         contract = self.db.get(key)
-        if contract is not None and not contract.inline and not contract.inline_calls:
+        planned = self.cur_contract is not None and key in getattr(self.cur_contract, "call_variants", {})
+        if contract is not None and (planned or (not contract.inline and not contract.inline_calls)):
             yield from self.call_by_contract(st, f, node, contract, args, kwargs)
             return
         if contract is None and not self.db.is_inline(key):
